@@ -454,9 +454,115 @@ fn check_case(run: &mut Run, ctx: &mut Ctx, case: &Case) {
     }
 }
 
+// ------------------------------------------------------------------------------------------------
+// Engine B: the counting workers under the controlled scheduler (DESIGN 4.5)
+// ------------------------------------------------------------------------------------------------
+
+/// (corpus lines, requested merges, worker threads, preemption bound)
+fn sched_units(quick: bool) -> Vec<(Vec<String>, usize, usize, usize)> {
+    let l = |v: &[&str]| v.iter().map(|s| s.to_string()).collect::<Vec<String>>();
+    // a bound of 99 preemptions is no bound at all for these short executions: every interleaving
+    let mut u = vec![
+        (l(&["ab ab", "ab b", "a ab"]), 3, 2, 99),
+        (l(&["aa", "a aa", "aa a"]), 5, 2, 99),
+        (l(&["ab", "ba", "ab ba"]), 2, 3, if quick { 2 } else { 99 }),
+    ];
+    if !quick {
+        u.push((l(&["abab", "ba", "b ab", "a"]), 60, 2, 99));
+        u.push((l(&["a b", "b a", "ab", "ba"]), 3, 3, 3));
+        u.push((l(&["ab", "ab"]), 1, 4, 3));
+    }
+    u
+}
+
+fn check_sched(run: &mut Run, ctx: &mut Ctx, lines: &[String], m: usize, workers: usize, bound: usize, replay: Option<Vec<usize>>) {
+    use text_utils::verif::ThreadKind;
+    let info = corpus_info(lines);
+    let corpus = ctx.scratch.path("sched_corpus.txt");
+    let out = ctx.scratch.path("sched_merges.bin");
+    std::fs::write(&corpus, lines.iter().map(|l| format!("{l}\n")).collect::<String>()).expect("cannot write corpus");
+    let (vocab_size, specials) = (320usize, 64 - m);
+    let unit_json = json!({"sched": true, "lines": lines, "requested_merges": m, "workers": workers, "bound": bound});
+    let runp: *mut Run = run;
+    let make_body = || {
+        let (corpus, out) = (corpus.clone(), out.clone());
+        move || -> Result<Vec<(u32, Vec<u8>)>, String> {
+            let _ = std::fs::remove_file(&out);
+            train_bpe(&[&corpus], vocab_size, specials, &out, None, None, workers as u8, false).map_err(|e| format!("train_bpe error: {e}"))?;
+            refs::load_merge_file(&out)
+        }
+    };
+    let mut tables: std::collections::BTreeSet<Vec<(u32, Vec<u8>)>> = Default::default();
+    let mut check = |x: &tu_verif::sched::Exec<Result<Vec<(u32, Vec<u8>)>, String>>, _p: &[usize]| -> bool {
+        let run = unsafe { &mut *runp };
+        run.evaluations += 1;
+        run.calls += 1;
+        run.compared += 1;
+        if x.preemptions() > 0 {
+            run.nontrivial += 1;
+        }
+        let case = || {
+            let mut c = unit_json.clone();
+            c["choices"] = json!(x.choices());
+            c["schedule"] = json!(x.schedule());
+            c
+        };
+        run.sample(|| case());
+        if let Some(h) = &x.halt {
+            let machinery = matches!(h, tu_verif::sched::Halt::Divergence(_));
+            run.violation(if machinery { "machinery-replay-divergence" } else { "counting-schedule-terminates" }, if machinery { "machinery" } else { "" }, case(), format!("{h:?}"));
+            return false;
+        }
+        match (&x.result, &x.body_panic) {
+            (_, Some(p)) => {
+                run.violation("no-panic", "", case(), format!("train_bpe panicked under this schedule: {p}"));
+                return false;
+            }
+            (Some(Ok(entries)), _) => {
+                tables.insert(entries.clone());
+                for (clause, class, detail) in oracle_table_with(&info, m, entries) {
+                    run.violation(&clause, &class, case(), format!("under this schedule of the counting workers: {detail}"));
+                }
+            }
+            (Some(Err(e)), _) => {
+                run.violation("training-succeeds", "", case(), e.clone());
+            }
+            (None, None) => {}
+        }
+        run.num_violations() < 4
+    };
+    if let Some(choices) = replay {
+        let x = tu_verif::countsched::exec(ThreadKind::BpeCounter, workers, &choices, make_body());
+        quiet_panics();
+        if x.choices() != choices {
+            run.violation("machinery-replay-divergence", "machinery", unit_json.clone(), format!("replayed {:?}", x.choices()));
+        }
+        check(&x, &choices);
+        return;
+    }
+    let stats = tu_verif::countsched::explore(ThreadKind::BpeCounter, workers, bound, run.deadline(), make_body, &mut check);
+    quiet_panics();
+    run.count_n("scheduler:executions", stats.executions);
+    run.count_n("scheduler:transitions", stats.transitions);
+    if stats.out_of_time {
+        run.capped = Some(format!("time budget reached in scheduler unit {unit_json}"));
+    }
+    let mut per = run.extra.remove("scheduler_units").and_then(|v| v.as_array().cloned()).unwrap_or_default();
+    per.push(json!({"unit": unit_json, "executions": stats.executions, "max_depth": stats.max_depth, "distinct_tables": tables.len(), "completed": !stats.stopped_early}));
+    run.extra.insert("scheduler_units".into(), json!(per));
+}
+
 fn main() {
     let mut run = Run::from_env("C19");
     if let Some(c) = run.replay_case() {
+        if c.get("sched").is_some() {
+            let mut ctx = Ctx::new();
+            let lines: Vec<String> = c["lines"].as_array().unwrap().iter().map(|l| l.as_str().unwrap().to_string()).collect();
+            let choices = c["choices"].as_array().map(|a| a.iter().map(|v| v.as_u64().unwrap() as usize).collect()).unwrap_or_default();
+            check_sched(&mut run, &mut ctx, &lines, c["requested_merges"].as_u64().unwrap() as usize, c["workers"].as_u64().unwrap() as usize, c["bound"].as_u64().unwrap() as usize, Some(choices));
+            drop(ctx);
+            run.finish();
+        }
         // which maximal pair wins a tie depends on per-process HashMap seeds: repeat the case until
         // a violation shows (a violating tie-break that has probability 1/2 per run is then missed
         // with probability 2^-64)
@@ -490,7 +596,13 @@ fn main() {
             }
         }
     }
+    let sus = sched_units(run.quick());
     if let Some(n) = run.describe_unit() {
+        if n as usize >= corpora.len() {
+            let u = &sus[n as usize - corpora.len()];
+            println!("{}", json!({"scheduler_unit": {"lines": u.0, "requested_merges": u.1, "workers": u.2, "bound": u.3}}));
+            return;
+        }
         println!("{}", json!({"lines": corpora.get(n as usize), "grid": "requested merges {0,1,2,3,5,60} x normalization {none, nfkc} x num_threads {0,1,2,3}, each trained twice"}));
         return;
     }
@@ -516,7 +628,16 @@ fn main() {
     );
     run.assumptions.push("the corpus words are the whitespace-separated words of each line, the first bare and the others with one leading space (refs::bpe_corpus_words); NFKC is the identity on the alphabet (asserted)".into());
     run.assumptions.push("pair frequency counts every adjacent position (overlapping occurrences as in 'aaa' count twice); any pair of maximal frequency is accepted at every step".into());
+    run.bounds.insert("scheduler_units".into(), json!(sus.iter().map(|u| json!({"lines": u.0, "requested_merges": u.1, "workers": u.2, "preemption_bound": u.3})).collect::<Vec<_>>()));
+    run.assumptions.push("scheduler part: only the counting workers are controlled, the reducer (calling thread) runs freely and always receives, so the order of messages it sees is the controlled order of sends; sequentially consistent exploration of the instrumented primitives".into());
     let mut ctx = Ctx::new();
+    // Engine B first: every schedule of the counting workers up to the preemption bound
+    for (j, u) in sus.iter().enumerate() {
+        if !run.unit((corpora.len() + j) as u64) {
+            continue;
+        }
+        check_sched(&mut run, &mut ctx, &u.0, u.1, u.2, u.3, None);
+    }
     for (iu, lines) in corpora.iter().enumerate() {
         if !run.unit(iu as u64) {
             continue;
